@@ -83,8 +83,8 @@ def cmd_verify(sid):
                 shutil.copy(f"{d}/{f}", dst)
                 placed.append(dst)
             c = demo_cmd.replace(m.get("worktree", "/nonexistent"), wt)
-            for p in ("/tmp/seed2/" + m.get("property", "XXX"), "/tmp/seed3/" + m.get("property", "XXX"), "/tmp/seed/" + m.get("property", "XXX")):
-                c = c.replace(p, wt)
+            import re
+            c = re.sub(r"/tmp/seed\d*/C\d\d", wt, c)
             r = sh(c, cwd=wt, timeout=1800)
             for p in placed:
                 os.remove(p)
